@@ -864,13 +864,24 @@ def analysis():
     return an
 
 
+def entry_table():
+    """[{name, tags}] of the public entry points.  Falls back to the declared table (no function bodies
+    translated) when the translator rejects the working tree, so that the oracle on the real code still runs."""
+    import gen_effects
+    try:
+        return analysis().entries
+    except Exception:      # noqa  (reported by the obligation translate:Effects)
+        an = gen_effects.Analysis(vc.REPO)
+        return [{'name': k, 'tags': tags, 'params': [], 'fn': None} for k, _, tags in gen_effects.entry_specs(an)]
+
+
 def sweep(ctx, stream, rounds, only=None):
     """dynamic observations: entry -> {'mutated': {param: (case, evidence)}, 'reuse': [(case, text)], 'cases': n}"""
-    an = analysis()
+    entries = entry_table()
     obs = collections.OrderedDict()
     for r in range(rounds):
         g = Gen(ctx, f'{stream}/{r}')
-        for e in an.entries:
+        for e in entries:
             if only and e['name'] not in only:
                 continue
             o = obs.setdefault(e['name'], {'mutated': collections.OrderedDict(), 'reuse': [], 'cases': 0,
@@ -900,7 +911,12 @@ def run(ctx, lean):
         ctx.ob('corr:static-vs-dynamic', False, 'tie', 'driver unavailable')
         return
     import gen_effects
-    an = analysis()
+    try:
+        an = analysis()
+    except Exception as e:      # noqa
+        ctx.ob('translate:Effects-analysis', False, 'translate', f'{type(e).__name__}: {e}'[:400])
+        plots(ctx, lean)        # the plot tie does not need the IR
+        return
     sv = static_verdicts(ctx, lean)
     ctx.notes.append(f'IR: {len(an.order)} functions (incl. per-call-site clones), '
                      f'{sum(len(f.body) for f in an.order)} statements, {len(an.varnames)} variables, '
@@ -978,21 +994,95 @@ def run(ctx, lean):
 
 
 # ----------------------------------------------------------------------------------- plots
+def canon(x):
+    """exact identity of a plotted / given number: the float64 bit pattern (so -0.0, denormals and the last
+    bit count; float32 and small integers are compared through their exact float64 value), big integers as such"""
+    if isinstance(x, (bool, np.bool_)):
+        return ('b', bool(x))
+    if isinstance(x, (int, np.integer)):
+        i = int(x)
+        return ('f', float(i).hex()) if abs(i) < 2 ** 53 else ('i', i)
+    if isinstance(x, (float, np.floating)):
+        return ('f', float(x).hex())
+    return ('o', repr(x))
+
+
 def fig_traces(fig, dim):
+    """[(label, sorted multiset of exact points)] of a figure; coordinates are NOT converted to float"""
     out = []
     for t in fig.data:
-        xs = [np.asarray(getattr(t, ax), dtype=float).tolist() for ax in ('x', 'y', 'z')[:dim]]
+        xs = [[canon(v) for v in np.asarray(getattr(t, ax)).tolist()] for ax in ('x', 'y', 'z')[:dim]]
         out.append((t.name, sorted(zip(*xs)) if xs and len(xs[0]) else []))
     return out
+
+
+def frame_points(frame, used):
+    cols = [[canon(v) for v in frame[c].tolist()] for c in used]
+    return sorted(zip(*cols)) if cols and len(cols[0]) else []
+
+
+def approx_same(a, b):
+    """same multisets up to rounding (the figure holds rounded copies of the data, not other rows)"""
+    def val(c):
+        return float.fromhex(c[1]) if c[0] == 'f' else float(c[1])
+    if len(a) != len(b):
+        return False
+    if not a:
+        return True
+    for axis in range(len(a[0])):      # per axis (rounding may reorder / merge points)
+        xs, ys = sorted(val(p[axis]) for p in a), sorted(val(p[axis]) for p in b)
+        for x, y in zip(xs, ys):
+            if not (x == y or abs(x - y) <= 1e-5 * max(abs(x), abs(y)) or max(abs(x), abs(y)) < 1e-30
+                    or (np.isinf(x) and abs(y) > 1e38) or (np.isinf(y) and abs(x) > 1e38)):
+                return False
+    return True
+
+
+VALUE_SCHEMES = ('unit', 'offset-1e12', 'epoch', 'tiny', 'huge', 'denormal', 'neg-zero', 'bigint-float', 'bigint-int64',
+                 'float32')
+
+
+def value_column(rng, n, scheme):
+    """(python values, dtype) of one column in the given value scale"""
+    ks = [rng.randint(0, 40) for _ in range(n)]
+    if scheme == 'offset-1e12':
+        return [1e12 + 0.25 * k for k in ks], 'float64'
+    if scheme == 'epoch':
+        return [1.7e9 + k for k in ks], 'float64'
+    if scheme == 'tiny':
+        return [1e-300 * (1 + k) for k in ks], 'float64'
+    if scheme == 'huge':
+        return [1e300 * (1 + k / 64.0) for k in ks], 'float64'
+    if scheme == 'denormal':
+        return [5e-324 * (1 + k) if k % 2 else 2.2250738585072014e-308 / (k + 2) for k in ks], 'float64'
+    if scheme == 'neg-zero':
+        return [rng.choice([-0.0, 0.0, -1.5, 2.5]) for _ in ks], 'float64'
+    if scheme == 'bigint-float':
+        return [float(2 ** 24 + 1 + 2 * k) for k in ks], 'float64'
+    if scheme == 'bigint-int64':
+        return [rng.choice([2 ** 24 + 1, 2 ** 40 + 3, -(2 ** 31) - 7]) + k for k in ks], 'int64'
+    if scheme == 'float32':
+        return [float(np.float32(rng.uniform(-5, 5))) for _ in ks], 'float32'
+    return [rng.choice([0.0, 1.0, -1.0, 0.5]) if rng.random() < 0.3 else round(rng.uniform(-5, 5), 3) for _ in ks], \
+        'float64'
+
+
+def scaled_rows(rng, n, schemes):
+    cols = [value_column(rng, n, sc) for sc in schemes]
+    return [[c[0][i] for c in cols] for i in range(n)], [c[1] for c in cols]
 
 
 INDEX_SCHEMES = ('default', 'strided', 'tail', 'offset', 'shuffled', 'duplicated', 'filtered', 'strings')
 
 
-def with_index(rows, cols, scheme, rng):
+def with_index(rows, cols, scheme, rng, dtypes=None):
     """a frame holding exactly `rows`, whose index is what a caller gets from slicing / filtering / re-labelling"""
     n = len(rows)
-    df = pd.DataFrame(rows, columns=cols)
+    if dtypes is None:
+        df = pd.DataFrame(rows, columns=cols)
+    else:
+        df = pd.DataFrame({c: np.array([r[j] for r in rows], dtype=dt) for j, (c, dt) in enumerate(zip(cols, dtypes))},
+                          columns=cols)
     if scheme == 'strided':          # df.iloc[::2]
         df.index = pd.RangeIndex(0, 2 * n, 2)
     elif scheme == 'tail':           # df.iloc[n:]
@@ -1016,7 +1106,8 @@ def with_index(rows, cols, scheme, rng):
     return df
 
 
-def plot_case(lean, fname, cols, real, synth, req, titled=False, schemes=('default', 'default'), rng=None):
+def plot_case(lean, fname, cols, real, synth, req, titled=False, schemes=('default', 'default'), rng=None,
+              dtypes=None):
     import copulas.visualization as V
     dim = 2 if '2d' in fname else 3
     kind = 'scatter' if fname.startswith('scatter') else 'compare'
@@ -1025,8 +1116,8 @@ def plot_case(lean, fname, cols, real, synth, req, titled=False, schemes=('defau
         try:
             r_req = None if req is None else list(req)
             title = 'T' if titled else None
-            fr = with_index(real, cols, schemes[0], rng)
-            fs = with_index(synth, cols, schemes[1], rng)
+            fr = with_index(real, cols, schemes[0], rng, dtypes)
+            fs = with_index(synth, cols, schemes[1], rng, dtypes)
             if kind == 'scatter':
                 fig = getattr(V, fname)(fr, r_req, title)
             else:
@@ -1047,7 +1138,7 @@ def plot_case(lean, fname, cols, real, synth, req, titled=False, schemes=('defau
         k, pos, trs = int(ws[1]), 2, []
         for _ in range(k):
             name, n = ws[pos], int(ws[pos + 1])
-            vals = [vc.h2f(w) for w in ws[pos + 2:pos + 2 + n * dim]]
+            vals = [canon(vc.h2f(w)) for w in ws[pos + 2:pos + 2 + n * dim]]
             trs.append((name, sorted(tuple(vals[i * dim:(i + 1) * dim]) for i in range(n))))
             pos += 2 + n * dim
         want = ('ok', trs)
@@ -1084,6 +1175,30 @@ def plots(ctx, lean):
             if not ok and bad is None:
                 bad = {'builder': fname, 'columns': cols, 'request': req, 'index_schemes': schemes, 'real': real,
                        'synth': synth, 'figure': got, 'model': want}
+        # every value scale at least once with and without `columns`: the figure holds EXACTLY the given numbers
+        # (bitwise: large offsets with fine spacing, epoch seconds, 1e-300, 1e300, denormals, -0.0, integers
+        # beyond 2**24 as float64 and as int64, float32 columns)
+        for k, (vs, with_cols) in enumerate([(v, w) for v in VALUE_SCHEMES for w in (False, True)]):
+            width = dim + 1 if with_cols else dim
+            cols = names[:width]
+            vschemes = [vs] + [rng.choice(VALUE_SCHEMES) for _ in range(width - 1)]
+            rng.shuffle(vschemes)
+            nr, ns = rng.randint(3, 8), rng.randint(2, 6)
+            real, dtypes = scaled_rows(rng, nr, vschemes)
+            synth, _ = scaled_rows(rng, ns, vschemes)
+            req = None
+            if with_cols:
+                req = [cols[vschemes.index(vs)]] + rng.sample([c for c in cols if c != cols[vschemes.index(vs)]],
+                                                              dim - 1)
+                rng.shuffle(req)
+            schemes = (rng.choice(INDEX_SCHEMES), rng.choice(INDEX_SCHEMES))
+            ok, got, want = plot_case(lean, fname, cols, real, synth, req, False, schemes, rng, dtypes)
+            ctx.case((fname, 'values', tuple(vschemes), with_cols, k), nontrivial=True)
+            ctx.count(f'plot-values:{vs}')
+            ctx.count(f'plot:{fname}:{got[0] if got[0] == "ok" else got[1]}')
+            if not ok and bad is None:
+                bad = {'builder': fname, 'columns': cols, 'dtypes': dtypes, 'value_scales': vschemes, 'request': req,
+                       'index_schemes': schemes, 'real': real, 'synth': synth, 'figure': got, 'model': want}
         for k in range(n):
             width = rng.choice([dim, dim, dim + 1, 4, 2])
             cols = names[:width]
@@ -1151,7 +1266,7 @@ def search(ctx, deep):
             ctx.fail_input(short(name), case, text, 'a second identical call re-using the same argument objects '
                            'gives the same result', f'{short(name)}:reuse-differs')
     # plots on the real code: every row once under the right label (independent of the Lean model)
-    pf = plot_oracle(ctx, 2 * len(INDEX_SCHEMES) * (3 if deep else 1))
+    pf = plot_oracle(ctx, 2 * len(VALUE_SCHEMES) * (3 if deep else 1))
     found += pf
     for c in sorted(known - hit):
         ctx.known_absent.append(c)
@@ -1159,23 +1274,36 @@ def search(ctx, deep):
 
 
 def plot_oracle(ctx, n):
+    """the statement itself on the real code: per label, the plotted coordinates are EXACTLY (bitwise for floats,
+    as multisets) the rows of the given table for the requested columns - over index schemes and value scales"""
     import copulas.visualization as V
     rng = ctx.rng('plot-oracle')
     found = 0
     for fname in ('scatter_2d', 'compare_2d', 'scatter_3d', 'compare_3d'):
         dim = 2 if '2d' in fname else 3
-        for k in range(n):
-            width = rng.choice([dim, dim + 1])
+        for k in range(max(n, 2 * len(VALUE_SCHEMES))):
+            vs = VALUE_SCHEMES[(k // 2) % len(VALUE_SCHEMES)]
+            with_cols = bool(k % 2)
+            width = dim + 1 if with_cols else dim
             cols = ['a', 'b', 'c', 'd'][:width]
+            vschemes = [vs] + [rng.choice(VALUE_SCHEMES) for _ in range(width - 1)]
+            rng.shuffle(vschemes)
             schemes = (INDEX_SCHEMES[k % len(INDEX_SCHEMES)], rng.choice(INDEX_SCHEMES))
             if k >= len(INDEX_SCHEMES):
                 schemes = (rng.choice(INDEX_SCHEMES), INDEX_SCHEMES[k % len(INDEX_SCHEMES)])
-            real = with_index([[round(rng.uniform(-3, 3), 2) for _ in cols] for _ in range(rng.randint(2, 9))],
-                              cols, schemes[0], rng)
-            synth = with_index([[round(rng.uniform(-3, 3), 2) for _ in cols] for _ in range(rng.randint(2, 7))],
-                               cols, schemes[1], rng)
-            req = rng.sample(cols, dim) if (width > dim or rng.random() < 0.5) else None
+            rrows, dtypes = scaled_rows(rng, rng.randint(2, 9), vschemes)
+            srows, _ = scaled_rows(rng, rng.randint(2, 7), vschemes)
+            real = with_index(rrows, cols, schemes[0], rng, dtypes)
+            synth = with_index(srows, cols, schemes[1], rng, dtypes)
+            req = None
+            if with_cols:
+                key = cols[vschemes.index(vs)]
+                req = [key] + rng.sample([c for c in cols if c != key], dim - 1)
+                rng.shuffle(req)
             used = req or cols
+            inp = {'columns': cols, 'dtypes': dtypes, 'value_scales': vschemes, 'request': req,
+                   'real_index': [str(i) for i in real.index], 'synth_index': [str(i) for i in synth.index],
+                   'real': [[repr(v) for v in r] for r in rrows], 'synth': [[repr(v) for v in r] for r in srows]}
             with warnings.catch_warnings():
                 warnings.simplefilter('ignore')
                 try:
@@ -1185,27 +1313,28 @@ def plot_oracle(ctx, n):
                         fig = getattr(V, fname)(real, synth, None if req is None else list(req))
                 except Exception as e:   # noqa
                     found += 1
-                    ctx.fail_input(f'visualization.{fname}',
-                                   {'columns': cols, 'request': req, 'real_index': real.index.tolist(),
-                                    'synth_index': synth.index.tolist(), 'real': real.to_numpy().tolist(),
-                                    'synth': synth.to_numpy().tolist()},
-                                   f'{type(e).__name__}: {e}'[:200], 'a figure is produced for a valid request',
-                                   f'visualization.{fname}:raises')
+                    ctx.fail_input(f'visualization.{fname}', inp, f'{type(e).__name__}: {e}'[:200],
+                                   'a figure is produced for a valid request', f'visualization.{fname}:raises')
                     continue
             tr = dict(fig_traces(fig, dim))
-            want = {'Real': sorted(map(tuple, real[used].to_numpy(dtype=float).tolist()))}
+            want = {'Real': frame_points(real, used)}
             if fname.startswith('compare'):
-                want['Synthetic'] = sorted(map(tuple, synth[used].to_numpy(dtype=float).tolist()))
+                want['Synthetic'] = frame_points(synth, used)
             if tr != want or len(fig.data) != len(want):
                 found += 1
-                ctx.fail_input(f'visualization.{fname}', {'columns': cols, 'request': req,
-                                                          'real_index': real.index.tolist(),
-                                                          'synth_index': synth.index.tolist(),
-                                                          'real': real.to_numpy().tolist(),
-                                                          'synth': synth.to_numpy().tolist()},
-                               {k: v[:4] for k, v in tr.items()},
-                               'every given row exactly once under the correct Real/Synthetic label',
-                               f'visualization.{fname}:wrong-points')
+                rounded = set(tr) == set(want) and all(approx_same(tr[l], want[l]) for l in want)
+                shown = {}
+                for l in want:
+                    extra = [p for p in tr.get(l, []) if p not in want[l]][:3]
+                    missing = [p for p in want[l] if p not in tr.get(l, [])][:3]
+                    shown[l] = {'plotted_but_not_given': [[float.fromhex(c[1]) if c[0] == 'f' else c[1] for c in p]
+                                                          for p in extra],
+                                'given_but_not_plotted': [[float.fromhex(c[1]) if c[0] == 'f' else c[1] for c in p]
+                                                          for p in missing]}
+                ctx.fail_input(f'visualization.{fname}', inp, shown,
+                               'the figure contains every given row exactly (bitwise) once under the correct '
+                               'Real/Synthetic label',
+                               f'visualization.{fname}:' + ('points-not-exactly-the-data' if rounded else 'wrong-points'))
     return found
 
 
